@@ -27,8 +27,8 @@ from collections import Counter
 from pathlib import Path
 
 VERIF = Path(__file__).resolve().parent.parent
-EVIDENCE_DIR = VERIF / "evidence"
-REPLAY_DIR = VERIF / "replays"
+EVIDENCE_DIR = Path(os.environ.get("LMC_EVIDENCE_DIR") or VERIF / "evidence")
+REPLAY_DIR = Path(os.environ.get("LMC_REPLAY_DIR") or VERIF / "replays")
 KNOWN_FINDINGS = VERIF / "known_findings.json"
 MAX_SAMPLES = 4
 MAX_VIOLATION_CASES_PER_SIGNATURE = 1
@@ -361,7 +361,7 @@ def run_property(prop_id: str, tier: str, seed: int, jobs: int, budget_s: float 
         "wall_s": round(wall, 2),
         "violations": len(new_violations),
     }
-    EVIDENCE_DIR.mkdir(exist_ok=True)
+    EVIDENCE_DIR.mkdir(parents=True, exist_ok=True)
     (EVIDENCE_DIR / f"{prop_id}.json").write_text(json.dumps(evidence, indent=1))
 
     print(
